@@ -225,9 +225,12 @@ def check_large(out: Outcome, rng):
     """many input positions (frames x atoms of a long trajectory): the count clause by brute force"""
     lat = np.diag([6.0, 7.0, 8.0])
     L = Lattice(lat)
-    n = int(rng.choice([50001, 73123, 120011]))
+    n = int(rng.choice([50001, 73123, 120011, 149999]))
     pos = rng.integers(0, 4096, size=(n, 3)) / 4096
     site_f = np.array([63 / 64, 0.25, 0.5])
+    # the very last positions (and some in the middle) lie well inside the sphere: every part of the input must be looked at
+    for k in (1, 2, 3, n // 2, n // 3):
+        pos[-k] = np.mod(site_f + rng.integers(-40, 41, size=3) / 4096, 1)
     radius = 0.9
     grp = space_group('P-1')
     site = PeriodicSite('Li', site_f, L, label='s')
